@@ -31,6 +31,8 @@ def model_values(model, inputs):
         val = model.eval(v, model_completion=True)
         if z3.is_bool(val):
             out[name] = z3.is_true(val)
+        elif z3.is_bv_value(val):
+            out[name] = val.as_long()
         else:
             f = z3_to_frac(val)
             if f is None:
@@ -62,7 +64,7 @@ def decide(constraints, negated_goal, inputs, timeout_ms=10000, ext_timeout_s=60
         return "sat", model_values(s.model(), inputs), info
     if not use_external:
         return "unknown", None, info
-    verdict, model, einfo = external_portfolio(s, inputs, ext_timeout_s, logic)
+    verdict, model, einfo = external_portfolio(list(constraints) + [negated_goal], inputs, ext_timeout_s, logic)
     info.update(einfo)
     return verdict, model, info
 
@@ -115,7 +117,11 @@ def _parse_value(txt):
 
 
 def external_portfolio(solver, inputs, timeout_s, logic=None):
-    smt = solver.to_smt2()
+    # export from a FRESH solver: after check() z3 may print its internal, preprocessed assertions
+    # (e.g. bvudiv_i over 161-bit vectors for FP division), which no parser accepts
+    fresh = z3.Solver()
+    fresh.add(*(solver.assertions() if not isinstance(solver, (list, tuple)) else solver))
+    smt = fresh.to_smt2()
     # to_smt2 ends with (check-sat); add get-value for the inputs
     names = list(inputs.keys())
     smt = smt.replace("(check-sat)", "")
@@ -243,6 +249,10 @@ def _parse_get_value(out, names):
             return True
         if x == "false":
             return False
+        if x.startswith("#x"):
+            return Fraction(int(x[2:], 16))
+        if x.startswith("#b"):
+            return Fraction(int(x[2:], 2))
         if "." in x:
             return Fraction(x)
         return Fraction(int(x))
